@@ -58,8 +58,34 @@ LITS = ["1", "0", "True", "False", "'a'", "''", "b'a'", "None", "-1", "E.a", "IE
 CLASSES_FOR_TYPE = ["int", "float", "bool", "str", "A", "B", "C", "object", "complex", "tuple", "list", "dict", "bytes"]
 
 
+# literals that are == but of different types (1 / True / IE.x, 0 / False, 2 / IE.y): a large union keeps its
+# Literal members in a hashed structure (fast path from 10 members on), where such twins must stay apart
+TWIN_LITS = ["0", "1", "2", "3", "4", "5", "6", "7", "8", "True", "False", "IE.x", "IE.y", "-1", "'a'", "'b'", "''", "b'a'", "None", "E.a", "E.b"]
+TWINS = {"1": ["True", "IE.x"], "True": ["1", "IE.x"], "IE.x": ["1", "True"], "0": ["False"], "False": ["0"], "2": ["IE.y"], "IE.y": ["2"]}
+
+
+def gen_large_literal(rng):
+    """Literal[...] / Union[Literal[...], classes] with 9 / 10 / 11 / 16 members; with probability 1/2 only one of a
+    pair of == literals of different types is a member (so the twin is a near miss), in either order"""
+    n = rng.choice([9, 10, 11, 16])
+    lits = rng.sample(TWIN_LITS, min(n, len(TWIN_LITS)))
+    if rng.random() < 0.5:
+        k = rng.choice(list(TWINS))
+        lits = [x for x in lits if x not in TWINS[k]]
+        if k not in lits:
+            lits.insert(rng.randrange(len(lits) + 1), k)
+    rng.shuffle(lits)
+    if rng.random() < 0.3:
+        classes = rng.sample(["str", "bytes", "A", "C", "NoneType" if False else "list", "tuple", "complex"], rng.randrange(1, 4))
+        k = max(1, len(lits) - len(classes))
+        return "Union[Literal[" + ", ".join(lits[:k]) + "], " + ", ".join(classes) + "]"
+    return "Literal[" + ", ".join(lits) + "]"
+
+
 def gen_type(rng, depth):
     r = rng.random()
+    if rng.random() < 0.04:
+        return gen_large_literal(rng)
     if depth <= 0 or r < 0.3:
         return rng.choice(BASES)
     d = depth - 1
@@ -214,6 +240,11 @@ def gen_obj_for(rng, T, depth=2):
         return gen_obj_for(rng, args[0], depth)
     if origin is typing.Literal:
         a = rng.choice(args)
+        # the literal itself, or an == literal of another type (bool / int / IntEnum twins)
+        twins = {1: [True, U.IE.x], 0: [False], 2: [U.IE.y]}
+        for base, others in twins.items():
+            if a == base and rng.random() < 0.5:
+                a = rng.choice([base] + others)
         return spec_of(a)
     if origin is typing.Union:
         return gen_obj_for(rng, rng.choice(args), depth)
